@@ -64,6 +64,9 @@ type SharedIndexInformer interface {
 type ResourceInformer struct {
 	sharedResourceInformer *sharedResourceInformer
 	informerWrapper        *informerWrapper
+
+	// closeOnce makes Close() idempotent for this subscription.
+	closeOnce sync.Once
 }
 
 func newResourceInformer(sri *sharedResourceInformer) *ResourceInformer {
@@ -93,9 +96,15 @@ func (ri *ResourceInformer) Lister() dynamiclister.Lister {
 // informer to be stopped when no users are left.
 // You should call this when you no longer need the informer, so the watches
 // and relists can be stopped.
+//
+// Calling Close() more than once on the same ResourceInformer is a no-op:
+// each subscription holds exactly one reference.
 func (ri *ResourceInformer) Close() {
-	// Decrement the reference count for the sharedResourceInformer.
-	ri.sharedResourceInformer.close()
+	// Decrement the reference count for the sharedResourceInformer, but only
+	// once per subscription. The count is shared by all subscribers, so a second
+	// decrement would take away someone else's reference and could stop the
+	// shared informer while they are still using it.
+	ri.closeOnce.Do(ri.sharedResourceInformer.close)
 }
 
 // sharedResourceInformer is the actual, single informer that's shared by
